@@ -211,6 +211,16 @@ ProofCase(key) ==
                   ELSE LET p1 == Prove(st1, hd, key - 1).p
                            vst == [full |-> {p1[j] : j \in 1..Len(p1)}, part |-> {}]
                        IN MTAdd(vst, hd, key, h, SubSeq(pr.p, n - MinProofLen(hd, key) + 1, n)),
+      \* NON-FIRST addition on one tree object: the verifier already added key-1 with its full proof (so it knows and has
+      \* cached the shared upper nodes) and now gets the FULL proof of key: accepted; with any element altered -- also one
+      \* the verifier already knows and could skip -- rejected: every supplied element is checked against the hash chain
+      knownfull |-> IF key = 0 THEN "ok"
+                    ELSE LET p1 == Prove(st1, hd, key - 1).p IN
+                         MTAdd([full |-> {p1[j] : j \in 1..Len(p1)}, part |-> {}], hd, key, h, pr.p),
+      knownalter |-> IF key = 0 THEN <<>>
+                     ELSE LET p1 == Prove(st1, hd, key - 1).p
+                              vst == [full |-> {p1[j] : j \in 1..Len(p1)}, part |-> {}]
+                          IN [j \in 1..n |-> MTAdd(vst, hd, key, h, [pr.p EXCEPT ![j] = Bad])],
       \* the same partial proof for a verifier that holds nothing
       partial0 |-> IF key = 0 THEN "ok" ELSE MTAdd(EmptyStore, hd, key, h, SubSeq(pr.p, n - MinProofLen(hd, key) + 1, n))]
 Check(key) == /\ store' = FinalizeStore(acc, store)
@@ -250,7 +260,8 @@ ProofsOK == \A key \in 0..(acc.len - 1) :
   /\ c.ok /\ c.n = Level(acc.len) /\ c.full = "ok"
   /\ c.badhash = "verify" /\ c.otherkey = "verify" /\ c.extra = "verify"
   /\ \A j \in 1..c.n : c.alter[j] = "verify" /\ c.drop[j] # "ok"
-  /\ c.partial = "ok"
+  /\ c.partial = "ok" /\ c.knownfull = "ok"
+  /\ \A j \in 1..Len(c.knownalter) : c.knownalter[j] = "verify"
 \* the persisted record always describes a real accumulation; it lags behind the object only after SetLen(0),
 \* which resets the object without rewriting the record (a re-opened accumulator then continues from the old record)
 PersistedConsistent == pdata = Accumulate(pitems) /\ ((pdata # acc) => (acc.len = 0 /\ pdata.len > 0))
